@@ -138,7 +138,7 @@ SIZE_NAMES = ["nx_core", "nx_sol", "nx_pf", "nx_sol_inner", "nx_sol_outer", "ny_
               "ny_outer_lower_divertor", "ny_outer_upper_divertor", "ny_inner_sol", "ny_outer_sol"]
 
 
-def build(env, kind, guards, start_upper_outer=False, capture=None, pre=None, pf=(0.9, 0.9)):
+def build(env, kind, guards, start_upper_outer=False, capture=None, pre=None, pf=(0.9, 0.9), psi_sign=1.0):
     """kind in lsn usn cdn ldn udn. returns (eq, mesh, topo dict, sizes)"""
     eq = tok.TokamakEquilibrium.__new__(tok.TokamakEquilibrium)
     settings = {"y_boundary_guards": guards, "nx_inter_sep": 0 if kind in ("lsn", "usn", "cdn") else 1,
@@ -167,6 +167,12 @@ def build(env, kind, guards, start_upper_outer=False, capture=None, pre=None, pf
     eq.psi_sol_inner = 1.2
     eq.psi_pf_lower, eq.psi_pf_upper = pf
     eq.psi_increasing = True
+    if psi_sign != 1.0:
+        # the same equilibrium with psi -> psi_sign * psi (psi decreasing outwards for a negative sign)
+        eq.psi_sep = [psi_sign * v for v in eq.psi_sep]
+        eq.psi_core, eq.psi_sol, eq.psi_sol_inner = psi_sign * eq.psi_core, psi_sign * eq.psi_sol, psi_sign * eq.psi_sol_inner
+        eq.psi_pf_lower, eq.psi_pf_upper = psi_sign * pf[0], psi_sign * pf[1]
+        eq.psi_increasing = psi_sign > 0
     eq.psi = (lambda R, Z: eq.psi_sep[0] if (Z < 0) == (eq.x_points[0].Z < 0) else eq.psi_sep[1])
     eq.f_R = eq.f_Z = None
     eq.findLegs = lambda xp, **k: {"inner": [xp, Point2D(xp.R - 1, xp.Z)], "outer": [xp, Point2D(xp.R + 1, xp.Z)]}
